@@ -39,6 +39,20 @@ def scenarios(ck):
         fail = set(rng.sample(range(n), rng.randint(1, min(2, n))))
         spec = X.small_program(shape, fail)
         yield mk(rng, spec)
+    # a long dependency chain (already stored) next to the failing task, under a lowered recursion limit: handling the failure must not
+    # depend on how deep the rest of the DAG is (rare and cheap: the chain is pre-filled)
+    for i in range(ck.n(3, 30)):
+        order = ['R', 'D', 'C', 'U']
+        rng.shuffle(order)
+        if order.index('D') < order.index('R'):
+            order.remove('D')
+            order.insert(order.index('R') + 1, 'D')
+        n = rng.choice([220, 260])
+        spec = X.deep_chain_program(n, order)
+        nw = rng.choice([1, 1, 2])
+        yield {'program': spec, 'backend': X.pick_backend(rng, (5, 2, 0, 2)), 'prefill': list(range(n)), 'keep_going': True, 'keep_failed': rng.random() < 0.5,
+               'recursion_slack': 150, 'deep': True,
+               'phases': [{'workers': X.gen_workers(rng, nw), 'policy': X.gen_policy(rng, nw)}]}
     for i in range(n_rand):
         spec = X.gen_program(rng, rng.randint(2, 7), clean=rng.random() < 0.3, rich=rng.choice([0.3, 0.7]),
                              p_raise=rng.choice([0.15, 0.3, 0.5]), use_map=rng.random() < 0.1)
@@ -68,6 +82,8 @@ def run(ck):
         res = b.run(sc, ORACLES)
         if res is not None:
             ck.count('flags:kg=%d,kf=%d' % (sc['keep_going'], sc['keep_failed']))
+            if sc.get('deep'):
+                ck.count('deep-chain programs (lowered recursion limit)')
             ck.count('raises-in-run:%d' % min(3, sum(1 for e in res.trace if e[0] == 'ERaise')))
             if len(sc['phases']) > 1:
                 ck.count('second-phase:' + str(sc['phases'][1].get('pre')))
